@@ -165,6 +165,9 @@ def main(tier, all_violations=False, t0=None):
         viol.append({"site": "index:" + v["site"], "detail": v["detail"], "case": {"part": "index", "op": v["op"], "state": None, "tier": tier}})
     fv, fn = from_array_purity(tier)
     viol.extend(fv)
+    pv, pn = calls.poke_checks()
+    for v in pv:
+        viol.append({"site": v["site"], "detail": v["detail"], "case": {"part": "poke", "history": v["history"], "at": v["at"]}})
     # (c)
     for v in construction_checks():
         viol.append({"site": v["site"], "detail": v["detail"], "case": {"part": "construct"}})
@@ -242,6 +245,12 @@ def replay(case, site=None):
 
     if case.get("part") == "index":
         return histprop.replay(case)
+    if case.get("part") == "poke":
+        pv, pn = calls.poke_checks()
+        hits = [v for v in pv if v["history"] == case["history"]]
+        for v in hits:
+            print("  %s :: %s" % (v["site"], v["detail"][:500]))
+        return bool(hits)
     if case.get("part") == "from_array":
         fv, fn = from_array_purity("quick")
         hits = [v for v in fv if v["case"]["op"] == case["op"]]
